@@ -394,6 +394,13 @@ func partitionedWrites(p *Program, fn *ssa.Function) (int, []string) {
 					if underMutex(f, in) {
 						continue
 					}
+					// a method that takes a lock before its first store serialises its writes itself
+					// (firstErr.report(i, err))
+					if ci, isCall := in.(ssa.CallInstruction); isCall {
+						if callee := ci.Common().StaticCallee(); callee != nil && writesUnderOwnLock(callee) {
+							continue
+						}
+					}
 					bad = append(bad, fmt.Sprintf("%s writes %s", p.Pos(instrPos(in)), descValue(addr, 0)))
 				}
 			}
@@ -520,4 +527,26 @@ func partitionException(f *ssa.Function, in ssa.Instruction) string {
 		root = root.Parent()
 	}
 	return partitionExceptions[root.Name()]
+}
+
+// writesUnderOwnLock: every store of the function to memory that is not a local variable is
+// dominated by a (*sync.Mutex).Lock / (*sync.RWMutex).Lock call of the same function.
+func writesUnderOwnLock(f *ssa.Function) bool {
+	if len(f.Blocks) == 0 {
+		return false
+	}
+	n := 0
+	for _, b := range f.Blocks {
+		for _, in := range b.Instrs {
+			st, ok := in.(*ssa.Store)
+			if !ok || isLocalCellAddr(st.Addr) {
+				continue
+			}
+			n++
+			if !underMutex(f, in) {
+				return false
+			}
+		}
+	}
+	return n > 0
 }
